@@ -432,6 +432,14 @@ fn gen_case(seed: u64, thorough: bool, fresh: bool) -> Case {
             extra_polls: if rng.chance(1, 4) { rng.range(1, 3) as u8 } else { 0 },
         });
     }
+    // one run in twenty has a *rogue* neighbour: an evaluator whose scope end lies past
+    // the deck (it runs off the end and panics, which is its own business); the
+    // well-formed evaluators around it must not notice
+    if rng.chance(1, 20) {
+        let si = rng.usize_below(nscen);
+        let fi = rng.range(1100, 1175) as usize;
+        specs.push(TaskSpec { scen: si, scope: Some((pos_from_index(fi), (48, rng.range(50, 60) as u8))), pre: vec![], extra_polls: 0 });
+    }
     let execs = match rng.below(4) {
         0 => 0,
         1 => 1,
@@ -489,6 +497,17 @@ pub fn case(batch: &str, tier: &str, i: u64) -> CaseOut {
     let vs = verif_seed();
     let seed = run_seed(vs, "C15", batch, i);
     let mut out = CaseOut { index: i, seed, evals: 1, ..Default::default() };
+    if batch == "native-shared" {
+        *out.probes.entry("native_shared_showdown_runs".into()).or_insert(0) += 1;
+        if let Some(d) = native_shared(seed) {
+            out.violation = Some((
+                "native_concurrent".into(),
+                format!("showdowns shared between threads: {d} (OS schedule: may not replay)"),
+                json!({"kind":"c15_native","shared":true,"seed": seed.to_string()}),
+            ));
+        }
+        return out;
+    }
     if batch == "native-heavy" {
         *out.probes.entry("native_heavy_runs_16_threads".into()).or_insert(0) += 1;
         if let Some(d) = native_heavy(seed) {
@@ -533,8 +552,8 @@ pub fn case(batch: &str, tier: &str, i: u64) -> CaseOut {
         }
         for s in &c.run.specs {
             f.add(s.scen as u64);
-            f.add(pos_index(s.from()) as u64);
-            f.add(pos_index(s.to()) as u64);
+            f.add(s.from().0 as u64 * 64 + s.from().1 as u64);
+            f.add(s.to().0 as u64 * 64 + s.to().1 as u64);
         }
         f.add(c.res.trace_hash);
         out.distinct.push(f.get());
@@ -555,8 +574,9 @@ pub fn eval(v: &Value) -> Option<(String, String)> {
         "c15_native" => {
             let seed: u64 = v["seed"].as_str()?.parse().ok()?;
             let heavy = v["heavy"].as_bool().unwrap_or(false);
+            let shared = v["shared"].as_bool().unwrap_or(false);
             for _ in 0..20 {
-                let r = if heavy { native_heavy(seed) } else { native_concurrent(seed) };
+                let r = if shared { native_shared(seed) } else if heavy { native_heavy(seed) } else { native_concurrent(seed) };
                 if let Some(d) = r {
                     return Some(("native_concurrent".into(), d));
                 }
@@ -734,6 +754,69 @@ fn native_heavy(seed: u64) -> Option<String> {
     res
 }
 
+/// Shared showdowns: one collection of showdowns behind an Arc, digested by four
+/// threads at the same time (every accessor of every showdown and player), then
+/// once more afterwards; all must equal the digests of an identical collection
+/// that only one thread ever touched.
+fn native_shared(seed: u64) -> Option<String> {
+    let mut rng = Rng::new(seed);
+    let params = ScenParams { max_players: 3, max_product: 12, allow_zero_players: false, hash_seeds: false };
+    let scen = gen_scenario(&mut rng, &params);
+    let ranges = scen.build_ranges();
+    let fi = rng.usize_below(NPOS - 40);
+    let scope = [(pos_from_index(fi), pos_from_index(fi + 40))];
+    let collect = || -> Option<Vec<espada::evaluator::Showdown>> {
+        let mut st = Stepper::new(&scen.flop, &ranges, &scope).ok()?;
+        let mut v = vec![];
+        while let Ok(Some(sd)) = st.step_raw() {
+            v.push(sd);
+            if v.len() >= 3000 {
+                break;
+            }
+        }
+        Some(v)
+    };
+    let reference = collect()?;
+    let dm = DeckMap::new(&scen.flop);
+    let want: Vec<Out> = reference.iter().map(|s| digest(s, &dm)).collect();
+    let shared = Arc::new(collect()?);
+    if shared.len() != want.len() {
+        return Some("two identical evaluators collected different numbers of showdowns".into());
+    }
+    let n = 4usize;
+    let barrier = Arc::new(std::sync::Barrier::new(n));
+    let flop = scen.flop;
+    let hs: Vec<_> = (0..n)
+        .map(|_| {
+            let sh = shared.clone();
+            let bar = barrier.clone();
+            std::thread::spawn(move || -> Vec<Out> {
+                let dm = DeckMap::new(&flop);
+                bar.wait();
+                sh.iter().map(|s| digest(s, &dm)).collect()
+            })
+        })
+        .collect();
+    let mut res = None;
+    for (i, h) in hs.into_iter().enumerate() {
+        match h.join() {
+            Ok(got) => {
+                if let Some(k) = (0..want.len()).find(|k| got[*k] != want[*k]) {
+                    res = res.or(Some(format!("thread {i} of {n} reading a shared showdown (#{k} of {}, {}) saw {} where a showdown no other thread touched gives {}", want.len(), scen.short(), got[k].short(), want[k].short())));
+                }
+            }
+            Err(_) => res = res.or(Some(format!("thread {i} of {n}: panic while reading shared showdowns"))),
+        }
+    }
+    if res.is_none() {
+        let after: Vec<Out> = shared.iter().map(|s| digest(s, &dm)).collect();
+        if let Some(k) = (0..want.len()).find(|k| after[*k] != want[*k]) {
+            res = Some(format!("after four threads read it, shared showdown #{k} digests to {} instead of {}", after[k].short(), want[k].short()));
+        }
+    }
+    res
+}
+
 // ---------------------------------------------------------------- sub-checks
 
 /// Compile-time Send/Sync probe (separate crate). Ok(true) = bounds hold.
@@ -827,7 +910,8 @@ pub fn run(tier: &str) -> i32 {
     let mut traces: std::collections::BTreeSet<u64> = Default::default();
     let chunk: u64 = if quick { 8 } else { 64 };
     let n_heavy: u64 = if quick { 3 } else { 48 };
-    for (batch, n) in [("inproc", n_plain), ("fresh", n_fresh), ("native", n_native), ("native-heavy", n_heavy)] {
+    let n_shared: u64 = if quick { 40 } else { 1000 };
+    for (batch, n) in [("inproc", n_plain), ("fresh", n_fresh), ("native", n_native), ("native-heavy", n_heavy), ("native-shared", n_shared)] {
         let chunk = if batch == "native-heavy" { 1 } else { chunk };
         let chunks = run_batch("C15", batch, n, chunk, tier, false);
         for (ci, ch) in chunks.iter().enumerate() {
